@@ -1,1 +1,185 @@
 # environment models (time, hashes, noise, protobuf, x509) register intercepts here
+import z3
+from .values import *
+from .exec import Executor, ErrObj, OPERR, CallReq
+from .intercepts import exact, pattern, vfunc, mkerr, gostr, I
+from .builtins_ import slice_elems
+
+# ------------------------------------------------------------------ globals of packages whose init is not executed
+GLOBAL_OVERRIDES = {
+    "net.ErrClosed": lambda: Iface(OPERR, ErrObj(-1, gostr("use of closed network connection"))),
+    "context.Canceled": lambda: Iface(OPERR, ErrObj(-2, gostr("context canceled"))),
+    "context.DeadlineExceeded": lambda: Iface(OPERR, ErrObj(-3, gostr("context deadline exceeded"))),
+    "io.EOF": lambda: Iface(OPERR, ErrObj(-4, gostr("EOF"))),
+    "io.ErrUnexpectedEOF": lambda: Iface(OPERR, ErrObj(-5, gostr("unexpected EOF"))),
+    "io.ErrShortBuffer": lambda: Iface(OPERR, ErrObj(-6, gostr("short buffer"))),
+}
+
+
+# ------------------------------------------------------------------ time
+# time.Time{wall uint64, ext int64, loc *Location} is modelled as wall=0, ext=nanoseconds (symbolic int64), loc=nil.
+# time.Now() returns non-decreasing instants in [0, 2^61).
+def mktime(ns):
+    return [0, ns, None]
+
+
+def tns(t):
+    return t[1]
+
+
+@exact("time.Now")
+def time_now(ex, g, fid, args):
+    if ex.opts.get("concrete_time"):
+        ex.now_conc = getattr(ex, "now_conc", 1_700_000_000_000_000_000) + 1_000_000
+        return mktime(ex.now_conc)
+    if ex.pinned is not None:
+        raise Unsupported("time.Now in pinned mode")
+    t = ex.fresh("t", 64)   # on the tape for information; native runs use the real clock
+    last = getattr(ex, "now_last", None)
+    c = z3.And(t >= (last if last is not None else 0), t < (1 << 61))
+    ex.assume(c)
+    ex.now_last = t
+    return mktime(t)
+
+
+def i64(ex, op, a, b):
+    from .exec import arith
+    return arith(ex, op, a, b, 64, True)
+
+
+@exact("(time.Time).Sub")
+def time_sub(ex, g, fid, args):
+    return i64(ex, "-", tns(args[0]), tns(args[1]))
+
+
+@exact("time.Since")
+def time_since(ex, g, fid, args):
+    now = time_now(ex, g, fid, [])
+    return i64(ex, "-", tns(now), tns(args[0]))
+
+
+@exact("(time.Time).Add")
+def time_add(ex, g, fid, args):
+    return mktime(i64(ex, "+", tns(args[0]), args[1]))
+
+
+@exact("(time.Time).Before")
+def time_before(ex, g, fid, args):
+    from .exec import compare_int
+    return compare_int("<", tns(args[0]), tns(args[1]), 64, True)
+
+
+@exact("(time.Time).After")
+def time_after(ex, g, fid, args):
+    from .exec import compare_int
+    return compare_int(">", tns(args[0]), tns(args[1]), 64, True)
+
+
+@exact("(time.Time).Equal")
+def time_equal(ex, g, fid, args):
+    return ex.eq(tns(args[0]), tns(args[1]))
+
+
+@exact("(time.Time).Compare")
+def time_compare(ex, g, fid, args):
+    from .exec import compare_int
+    lt = compare_int("<", tns(args[0]), tns(args[1]), 64, True)
+    gt = compare_int(">", tns(args[0]), tns(args[1]), 64, True)
+    return ite(lt, norm(-1, 64, True), ite(gt, 1, 0, 64), 64)
+
+
+@exact("time.Unix")
+def time_unix(ex, g, fid, args):
+    sec, nsec = args
+    if is_sym(sec) or sec != 0:
+        if is_sym(sec) or is_sym(nsec):
+            raise Unsupported("time.Unix with symbolic seconds")
+        return mktime(sec * 1_000_000_000 + nsec)
+    return mktime(nsec)
+
+
+@exact("(time.Time).IsZero")
+def time_iszero(ex, g, fid, args):
+    return ex.eq(tns(args[0]), 0)
+
+
+@exact("(time.Time).UnixNano")
+def time_unixnano(ex, g, fid, args):
+    return tns(args[0])
+
+
+@exact("(time.Time).UTC", "(time.Time).Local", "(time.Time).Round", "(time.Time).Truncate")
+def time_utc(ex, g, fid, args):
+    return args[0]
+
+
+@exact("(time.Duration).Milliseconds")
+def dur_ms(ex, g, fid, args):
+    d = args[0]
+    if is_sym(d):
+        raise Unsupported("symbolic Duration.Milliseconds (64-bit division)")
+    return int(d / 1e6)
+
+
+@exact("(time.Duration).Seconds")
+def dur_s(ex, g, fid, args):
+    d = args[0]
+    if is_sym(d):
+        raise Unsupported("symbolic Duration.Seconds")
+    return d / 1e9
+
+
+@exact("(time.Duration).String", "(time.Time).String")
+def dur_string(ex, g, fid, args):
+    return gostr("<time>")
+
+
+# tickers / timers: never fire inside a harness (harnesses drive time explicitly)
+@exact("time.NewTicker")
+def time_newticker(ex, g, fid, args):
+    ch = Chan(1, None)
+    return Ptr([[ch, None, False]], 0)
+
+
+@exact("(*time.Ticker).Stop", "(*time.Timer).Stop", "(*time.Ticker).Reset")
+def ticker_stop(ex, g, fid, args):
+    return False if "Timer" in fid else None
+
+
+# ------------------------------------------------------------------ errgroup (sequential model: Go runs the closure immediately)
+@exact("(*golang.org/x/sync/errgroup.Group).Go")
+def eg_go(ex, g, fid, args):
+    grp = args[0]
+    st = ex.wg.setdefault(("eg", id(grp.cont), grp.idx), {"err": None})
+
+    def then(res):
+        if res is not None and st["err"] is None:
+            st["err"] = res
+        return None
+
+    return CallReq(args[1], [], then)
+
+
+@exact("(*golang.org/x/sync/errgroup.Group).Wait")
+def eg_wait(ex, g, fid, args):
+    grp = args[0]
+    st = ex.wg.setdefault(("eg", id(grp.cont), grp.idx), {"err": None})
+    return st["err"]
+
+
+@exact("golang.org/x/sync/errgroup.WithContext")
+def eg_withcontext(ex, g, fid, args):
+    fn = ex.funcs[fid]
+    rt = ex.types[fn["sig"]]["results"]
+    et = ex.types[rt[0]]["elem"]
+    return Tup([Ptr([ex.zero(et)], 0), args[0]])
+
+
+@exact("runtime.GOMAXPROCS", "runtime.NumCPU")
+def rt_gomaxprocs(ex, g, fid, args):
+    return 1
+
+
+@exact("runtime.Gosched")
+def rt_gosched(ex, g, fid, args):
+    return None
